@@ -1507,7 +1507,12 @@ impl<T: Storage> Raft<T> {
                 // ...and we believe the candidate is up to date.
                 if can_vote
                     && self.raft_log.is_up_to_date(m.index, m.log_term)
-                    && (m.index > self.raft_log.last_index() || self.priority <= get_priority(&m))
+                    // The priority only breaks ties between equally up-to-date logs: a
+                    // candidate whose log is strictly more up to date (a later last term, or
+                    // the same last term and a longer log) gets the vote whatever its priority.
+                    && (m.log_term > self.raft_log.last_term()
+                        || m.index > self.raft_log.last_index()
+                        || self.priority <= get_priority(&m))
                 {
                     // When responding to Msg{Pre,}Vote messages we include the term
                     // from the message, not the local term. To see why consider the
